@@ -44,7 +44,7 @@ theorem dropHead_cons (s : Srv) (l : Nat) (t : Task) (rest : List Task) (h : s.q
   simp only [dropHead, h]; rfl
 
 theorem ext_dropq (s : Srv) (l : Nat) (rest : List Task) : Ext s (dropq s l rest) :=
-  ⟨rfl, rfl, rfl, rfl, rfl, rfl, rfl, List.Sublist.refl _, fun _ => rfl, fun _ => rfl, rfl, [], by simp [dropq], by simp⟩
+  ⟨rfl, rfl, rfl, rfl, rfl, rfl, rfl, List.Sublist.refl _, fun _ => rfl, fun _ => rfl, rfl, rfl, [], by simp [dropq], by simp⟩
 
 theorem agree_dropq (s : Srv) (l : Nat) (t : Task) (rest : List Task) (hq : s.q l = t :: rest) (c : Nat) (h : about c t = false) :
     Agree s (dropq s l rest) c := by
@@ -196,11 +196,11 @@ theorem ginv_dropHead (s : Srv) (h : GInv s) (hsa : s.alive = false) (l : Nat) (
 /-! ### the configuration (`L`, `nameOf`) never changes -/
 
 /-- same number of io loops, same naming function -/
-def Same (s s' : Srv) : Prop := s'.L = s.L ∧ s'.nameOf = s.nameOf ∧ s'.drain = s.drain
+def Same (s s' : Srv) : Prop := s'.L = s.L ∧ s'.nameOf = s.nameOf ∧ s'.drain = s.drain ∧ s'.drainRepeats = s.drainRepeats
 
-theorem Same.refl (s : Srv) : Same s s := ⟨rfl, rfl, rfl⟩
-theorem Same.trans {s s' s'' : Srv} (h1 : Same s s') (h2 : Same s' s'') : Same s s'' := ⟨h2.1.trans h1.1, h2.2.1.trans h1.2.1, h2.2.2.trans h1.2.2⟩
-theorem Ext.same {s s' : Srv} (h : Ext s s') : Same s s' := ⟨h.L, h.nameOf, h.drain⟩
+theorem Same.refl (s : Srv) : Same s s := ⟨rfl, rfl, rfl, rfl⟩
+theorem Same.trans {s s' s'' : Srv} (h1 : Same s s') (h2 : Same s' s'') : Same s s'' := ⟨h2.1.trans h1.1, h2.2.1.trans h1.2.1, h2.2.2.1.trans h1.2.2.1, h2.2.2.2.trans h1.2.2.2⟩
+theorem Ext.same {s s' : Srv} (h : Ext s s') : Same s s' := ⟨h.L, h.nameOf, h.drain, h.drainRepeats⟩
 
 theorem same_iterate (f : Srv → Srv) (hf : ∀ s, Same s (f s)) (k : Nat) (s : Srv) : Same s (iterate f k s) := by
   induction k generalizing s with
@@ -216,7 +216,7 @@ theorem same_destroyServer (s : Srv) : Same s (destroyServer s) := by
       induction cs with
       | nil => intro s0; exact Same.refl s0
       | cons c cs ih => intro s0; exact (ext_dtorOne s0 c).same.trans (ih _)
-    exact Same.trans ⟨rfl, rfl, rfl⟩ (this _ _)
+    exact Same.trans ⟨rfl, rfl, rfl, rfl⟩ (this _ _)
 
 theorem same_runHead (s : Srv) (l : Nat) : Same s (runHead s l) := by
   cases hq : s.q l with
@@ -259,8 +259,20 @@ theorem same_accept (s : Srv) : Same s (accept s) := by
       | some o => exact h2.trans (ext_reapOne s2 0 o).same
     apply h1
     split
-    · exact Same.trans ⟨rfl, rfl, rfl⟩ (ext_connectEstablished _ 0 _).same
-    · exact Same.trans ⟨rfl, rfl, rfl⟩ (ext_enq _ _ _).same
+    · exact Same.trans ⟨rfl, rfl, rfl, rfl⟩ (ext_connectEstablished _ 0 _).same
+    · exact Same.trans ⟨rfl, rfl, rfl, rfl⟩ (ext_enq _ _ _).same
+
+theorem same_drainBatch (s : Srv) (l : Nat) : Same s (drainBatch s l) := by
+  unfold drainBatch endBatch
+  exact (same_iterate _ (fun s => same_runHead s l) _ s).trans (same_iterate _ (fun s => same_releaseHead s l) _ _)
+
+theorem same_drainAll (l : Nat) (f : Nat) (s : Srv) : Same s (drainAll l f s) := by
+  induction f generalizing s with
+  | zero => exact Same.refl s
+  | succ f ih =>
+    simp only [drainAll]; split
+    · exact same_drainBatch s l
+    · exact (same_drainBatch s l).trans (ih _)
 
 theorem same_step (s : Srv) (a : Action) : Same s (step s a) := by
   cases a <;> simp only [step]
@@ -277,26 +289,29 @@ theorem same_step (s : Srv) (a : Action) : Same s (step s a) := by
     · exact Same.refl s
   · split
     · split
-      · exact Same.trans ⟨rfl, rfl, rfl⟩ (ext_forceCloseInLoop _ _ _).same
-      · exact ⟨rfl, rfl, rfl⟩
+      · exact Same.trans ⟨rfl, rfl, rfl, rfl⟩ (ext_forceCloseInLoop _ _ _).same
+      · exact ⟨rfl, rfl, rfl, rfl⟩
     · exact Same.refl s
   · split
-    · split <;> exact ⟨rfl, rfl, rfl⟩
+    · split <;> exact ⟨rfl, rfl, rfl, rfl⟩
     · exact Same.refl s
   · split
-    · exact ⟨rfl, rfl, rfl⟩
+    · exact ⟨rfl, rfl, rfl, rfl⟩
     · exact Same.refl s
   · split
-    · exact Same.trans ⟨rfl, rfl, rfl⟩ (ext_reapOne _ _ _).same
+    · exact Same.trans ⟨rfl, rfl, rfl, rfl⟩ (ext_reapOne _ _ _).same
     · exact Same.refl s
   · exact same_destroyServer s
   · split
-    · exact ⟨rfl, rfl, rfl⟩
+    · exact ⟨rfl, rfl, rfl, rfl⟩
     · exact Same.refl s
   · split
     · exact Same.refl s
-    · refine Same.trans ?_ (same_iterate _ (fun s => same_releaseHead s _) _ _)
-      exact Same.trans ⟨rfl, rfl, rfl⟩ (same_iterate _ (fun s => same_runHead s _) _ _)
+    · split
+      · split
+        · exact Same.trans ⟨rfl, rfl, rfl, rfl⟩ (same_drainAll _ _ _)
+        · exact Same.trans ⟨rfl, rfl, rfl, rfl⟩ (same_drainBatch _ _)
+      · exact ⟨rfl, rfl, rfl, rfl⟩
   · split
     · exact same_iterate _ (fun s => same_dropHead s _) _ s
     · exact Same.refl s
@@ -322,6 +337,17 @@ theorem strandOK_iterate (l : Nat) (k : Nat) (s : Srv) (h : GInv s) (hsa : s.ali
 /-- `Action.loopGone l` is enabled -/
 def goneReady (s : Srv) (l : Nat) : Bool := s.exited l && (s.done l).isEmpty && !s.alive
 
+theorem ginv_drainBatch (s : Srv) (h : GInv s) (l : Nat) : GInv (drainBatch s l) :=
+  ginv_endBatch _ (ginv_iterate _ (fun s hs => ginv_runHead s hs l) _ _ h) l
+
+theorem ginv_drainAll (l : Nat) (f : Nat) (s : Srv) (h : GInv s) : GInv (drainAll l f s) := by
+  induction f generalizing s with
+  | zero => exact h
+  | succ f ih =>
+    simp only [drainAll]; split
+    · exact ginv_drainBatch s h l
+    · exact ih _ (ginv_drainBatch s h l)
+
 theorem ginv_step (s : Srv) (h : GInv s) (hinj : Function.Injective s.nameOf) (a : Action)
     (hg : ∀ l, a = .loopGone l → goneReady s l = true → StrandOK s l) : GInv (step s a) := by
   cases a with
@@ -342,7 +368,11 @@ theorem ginv_step (s : Srv) (h : GInv s) (hinj : Function.Injective s.nameOf) (a
   | exit l =>
     simp only [step]; split
     · exact h
-    · exact ginv_endBatch _ (ginv_iterate _ (fun s hs => ginv_runHead s hs l) _ _ (ginv_exited s h _)) l
+    · split
+      · split
+        · exact ginv_drainAll l 3 _ (ginv_exited s h _)
+        · exact ginv_drainBatch _ (ginv_exited s h _) l
+      · exact ginv_exited s h _
   | loopGone l =>
     simp only [step]; split
     · rename_i hc
